@@ -1,8 +1,8 @@
 (** Pinned statements of the C10 property theorems: compiled on every check, so a theorem
     cannot be weakened silently. *)
 From V Require Import Base.Util Gql.Ast Writer.Wop Ts.TsType Ts.TsDen
-  C10.Model C10.Spec C10.DenLemmas C10.Decide C10.Proofs C10.Proofs3 C10.Proofs2 C10.JsdocProofs C10.NameProofs C10.ResolverProofs
-  C10.WrapGen C10.ResolverArgs C10.ResolverDen C10.Properties.
+  C10.Model C10.Spec C10.DenLemmas C10.Decide C10.Proofs C10.Proofs3 C10.Proofs2 C10.JsdocProofs C10.NameProofs C10.NameProofs2 C10.ResolverProofs
+  C10.WrapGen C10.ResolverArgs C10.ResolverDen C10.ResolverMain C10.Properties.
 
 Check (C10_alias_exact :
   forall o doc nss t T body f v b,
@@ -138,3 +138,35 @@ Check (C10_resolver_result_exact_iff :
   /\ ((exists f, mt ms (module_aliases d) f (get_ts_type_of_type tvar_id ty) v = Some false)
      <-> wrap_den (resolver_ref o doc) v (is_nonnull ty) (ty_norm ty) = false)).
 Print Assumptions C10_resolver_result_exact_iff.
+
+Check (C10_resolvers_field_exact :
+  forall o ro doc ms_in ms_out d,
+  resolvers_guard o ro doc = true ->
+  namespace_members o doc ResIn = Ok ms_in -> namespace_members o doc ResOut = Ok ms_out ->
+  resolver_structure ro 0 doc = Ok d ->
+  forall dd p n impls dirs fields kw fd,
+  In (TDObject dd p n impls dirs fields kw) (typedefs doc) -> In fd fields ->
+  exists entry objfields fl A R,
+    assoc (iname n) (root_pairs d) = Some entry /\ f_ty entry = TObject objfields /\
+    find (fun x => str_eqb (f_key x) (iname (fd_name fd))) objfields = Some fl /\ f_optional fl = false /\
+    f_ty fl = TFunc (TVar (s "__Resolver") pos0) [TVar (iname n) (ipos n); A; TVar (s "Context") pos0; R] /\
+    (forall v, (In_type (res_in_env ms_in) A v <-> args_ref o doc (args_of fd) v = true)
+               /\ (NotIn_type (res_in_env ms_in) A v <-> args_ref o doc (args_of fd) v = false)) /\
+    (forall v, ((exists f, mt ms_out (module_aliases d) f R v = Some true)
+                  <-> wrap_den (resolver_ref o doc) v (is_nonnull (fd_type fd)) (ty_norm (fd_type fd)) = true)
+               /\ ((exists f, mt ms_out (module_aliases d) f R v = Some false)
+                  <-> wrap_den (resolver_ref o doc) v (is_nonnull (fd_type fd)) (ty_norm (fd_type fd)) = false)) /\
+    (forall pp v, ((exists f, mt ms_out (module_aliases d) f (TVar (iname n) pp) v = Some true) <-> resolver_ref o doc (iname n) v = true)
+                  /\ ((exists f, mt ms_out (module_aliases d) f (TVar (iname n) pp) v = Some false) <-> resolver_ref o doc (iname n) v = false))).
+Print Assumptions C10_resolvers_field_exact.
+
+Check (C10_resolver_structure_total :
+  forall ro doc, exists d, resolver_structure ro 0 doc = Ok d).
+Print Assumptions C10_resolver_structure_total.
+
+Check (C10_namespace_no_capture :
+  forall o doc t ms m m' r i,
+  namespace_members o doc t = Ok ms ->
+  bag_ok (get_bag_of_identifiers (get_scalar_types o doc)) = true ->
+  In (Some m) ms -> In (Some m') ms -> m_body m = BText r -> In i (idents_of r) -> m_local m' <> i).
+Print Assumptions C10_namespace_no_capture.
